@@ -55,7 +55,9 @@ func runC06(c *core.Ctx, b core.Batch) {
 					in = gen.Mutate(r, in, hist)
 				}
 			case 3:
-				if r.Bool() {
+				if r.Chance(1, 2) {
+					in = gen.ConfuseWire(r, in, mt.Descriptor(), hist)
+				} else if r.Bool() {
 					in = r.Bytes(r.Intn(40))
 					hist("raw-random")
 				} else {
